@@ -330,59 +330,94 @@ def rule_half(ctx):
     S = p.methods("Server")
     bm = S["build_list_mtime"]
     mt = bm.args.args[0].arg
-    cmps = [n for n in walk_no_nested(bm) if isinstance(n, ast.Compare) and any(isinstance(x, ast.Name) and x.id == mt for x in ast.walk(n))
-            and not (len(n.ops) == 1 and isinstance(n.ops[0], (ast.Is, ast.IsNot)))]
-    if not cmps:
-        raise Inconclusive("C07.HALF: window comparison not found in build_list_mtime")
-    c = deep_expand(p, cmps[0], bm, stop={mt, "now"})
-    c_orig = cmps[0]
-    # normalise to lower < m <= upper
-    lower = upper = None
-    lower_strict = upper_incl = None
-    terms = [c.left] + list(c.comparators)
-    for (a, op, b) in zip(terms, c.ops, terms[1:]):
-        a_is, b_is = isinstance(a, ast.Name) and a.id == mt, isinstance(b, ast.Name) and b.id == mt
-        if b_is and isinstance(op, (ast.Lt, ast.LtE)):
-            lower, lower_strict = a, isinstance(op, ast.Lt)
-        elif a_is and isinstance(op, (ast.Lt, ast.LtE)):
-            upper, upper_incl = b, isinstance(op, ast.LtE)
-        elif a_is and isinstance(op, (ast.Gt, ast.GtE)):
-            lower, lower_strict = b, isinstance(op, ast.Gt)
-        elif b_is and isinstance(op, (ast.Gt, ast.GtE)):
-            upper, upper_incl = a, isinstance(op, ast.GtE)
-    thr_s = None
-    if isinstance(lower, ast.BinOp) and isinstance(lower.op, ast.Sub) and src(lower.left) == "now":
-        thr_s = src(lower.right)
-    ctx.ob("C07.HALF", c, f"the year-less form is used only for mtime > now - T (T = {thr_s})", thr_s is not None,
-           f"no lower bound `now - T < mtime` in `{src(c)}`", construct="half:lower bound")
-    ctx.ob("C07.HALF", c, "the year-less form is used only for mtime <= now (future timestamps carry their year)", upper is not None and src(upper) == "now",
-           f"`{src(c)}` has no upper bound `mtime <= now`: a timestamp in the future is written without a year and read back in the wrong year", construct="half:upper bound")
-    # which branch is the year-less one: the branch under the positive test must use the format with %H
-    br = p.parent.get(c_orig)
-    negs = 0
-    while isinstance(br, ast.UnaryOp) and isinstance(br.op, ast.Not):
-        negs += 1
-        br = p.parent.get(br)
-    if isinstance(br, ast.Assign) and len(br.targets) == 1 and isinstance(br.targets[0], ast.Name):
-        # a named condition: find the `if <name>:` / `if not <name>:` that uses it
-        nm = br.targets[0].id
-        for cand in walk_no_nested(bm):
-            if isinstance(cand, (ast.If, ast.IfExp)):
-                t_, k_ = cand.test, 0
-                while isinstance(t_, ast.UnaryOp) and isinstance(t_.op, ast.Not):
-                    t_, k_ = t_.operand, k_ + 1
-                if isinstance(t_, ast.Name) and t_.id == nm:
-                    br, negs = cand, negs + k_
-    if not isinstance(br, (ast.If, ast.IfExp)):
+    # the statement that selects the date form: an If / IfExp with the time-of-day format on one side and the year format on the other
+    def fmts(stmts):
+        return [x.value for s_ in stmts for x in ast.walk(s_) if isinstance(x, ast.Constant) and isinstance(x.value, str) and "%" in x.value]
+    br = None
+    for cand in walk_no_nested(bm):
+        if isinstance(cand, (ast.If, ast.IfExp)):
+            bt, bf = (cand.body, cand.orelse) if isinstance(cand, ast.If) else ([cand.body], [cand.orelse])
+            ft, ff = fmts(bt), fmts(bf)
+            if ft and ff and (("%H" in ft[0]) != ("%H" in ff[0])):
+                br = cand
+                break
+    if br is None:
         raise Inconclusive("C07.HALF: the statement that selects the LIST date format by the window test was not found")
-    if isinstance(br, (ast.If, ast.IfExp)):
-        b_true, b_false = (br.body, br.orelse) if isinstance(br, ast.If) else ([br.body], [br.orelse])
-        if negs % 2:
-            b_true, b_false = b_false, b_true
-        fm_true = [x.value for s_ in b_true for x in ast.walk(s_) if isinstance(x, ast.Constant) and isinstance(x.value, str) and "%" in x.value]
-        fm_false = [x.value for s_ in b_false for x in ast.walk(s_) if isinstance(x, ast.Constant) and isinstance(x.value, str) and "%" in x.value]
-        ok = bool(fm_true) and bool(fm_false) and "%H" in fm_true[0] and "%Y" in fm_false[0]
-        ctx.ob("C07.HALF", br, "inside the window the time-of-day form is used, outside the year form", ok, f"window branches use {fm_true} / {fm_false}", construct="half:branches")
+    b_true, b_false = (br.body, br.orelse) if isinstance(br, ast.If) else ([br.body], [br.orelse])
+    test = deep_expand(p, br.test, bm, stop={mt, "now"})
+    negs = 0
+    while isinstance(test, ast.UnaryOp) and isinstance(test.op, ast.Not):
+        test, negs = test.operand, negs + 1
+    if "%H" not in fmts(b_true)[0]:
+        negs += 1           # the year form is the positive branch: the window is the negation of the test
+    # window = conjunction of `d < 0` / `d <= 0` constraints, d linear in (mtime, now, T)
+    def lin(e, sign=1, acc=None):
+        acc = {} if acc is None else acc
+        if isinstance(e, ast.BinOp) and isinstance(e.op, (ast.Add, ast.Sub)):
+            lin(e.left, sign, acc)
+            lin(e.right, sign if isinstance(e.op, ast.Add) else -sign, acc)
+        elif isinstance(e, ast.UnaryOp) and isinstance(e.op, ast.USub):
+            lin(e.operand, -sign, acc)
+        elif isinstance(e, ast.Constant) and e.value == 0:
+            pass
+        else:
+            k = src(e)
+            acc[k] = acc.get(k, 0) + sign
+        return acc
+
+    def atoms(t, negate):
+        """list of (d, strict): the window implies d < 0 (strict) or d <= 0; None when the shape is not a conjunction of comparisons"""
+        if isinstance(t, ast.UnaryOp) and isinstance(t.op, ast.Not):
+            return atoms(t.operand, not negate)
+        if isinstance(t, ast.BoolOp):
+            if isinstance(t.op, ast.And) == negate:
+                return None          # a disjunction: not a window
+            out = []
+            for v in t.values:
+                a_ = atoms(v, negate)
+                if a_ is None:
+                    return None
+                out += a_
+            return out
+        if isinstance(t, ast.Compare):
+            terms = [t.left] + list(t.comparators)
+            if negate and len(t.ops) > 1:
+                return None
+            out = []
+            for a_, op, b_ in zip(terms, t.ops, terms[1:]):
+                if not isinstance(op, (ast.Lt, ast.LtE, ast.Gt, ast.GtE)):
+                    return None
+                less, strict = isinstance(op, (ast.Lt, ast.LtE)), isinstance(op, (ast.Lt, ast.Gt))
+                if negate:
+                    less, strict = not less, not strict
+                d = lin(a_) if less else lin(b_)
+                for k, v in (lin(b_) if less else lin(a_)).items():
+                    d[k] = d.get(k, 0) - v
+                out.append(({k: v for k, v in d.items() if v}, strict))
+            return out
+        return None
+    cons = atoms(test, bool(negs % 2))
+    if cons is None:
+        raise Inconclusive("C07.HALF: window test is not a conjunction of comparisons: " + src(test))
+    c = br.test
+    thr_s = None
+    upper_ok = False
+    for d, strict in cons:
+        if d.get("now") == 1 and d.get(mt) == -1 and len(d) == 3 and strict:
+            k = next(k for k in d if k not in ("now", mt))
+            if d[k] == -1:
+                thr_s = k
+        if d == {mt: 1, "now": -1} and not strict:
+            upper_ok = True
+    ctx.ob("C07.HALF", c, f"the year-less form is used only for mtime > now - T (T = {thr_s})", thr_s is not None,
+           f"no lower bound `now - T < mtime` in `{src(test)}`", construct="half:lower bound")
+    ctx.ob("C07.HALF", c, "the year-less form is used only for mtime <= now (future timestamps carry their year)", upper_ok,
+           f"`{src(test)}` has no upper bound `mtime <= now`: a timestamp in the future is written without a year and read back in the wrong year", construct="half:upper bound")
+    if negs % 2:
+        b_true, b_false = b_false, b_true
+    fm_true, fm_false = fmts(b_true), fmts(b_false)
+    ok = bool(fm_true) and bool(fm_false) and "%H" in fm_true[0] and "%Y" in fm_false[0]
+    ctx.ob("C07.HALF", br, "inside the window the time-of-day form is used, outside the year form", ok, f"window branches use {fm_true} / {fm_false}", construct="half:branches")
     pd = p.method("BaseClient", "parse_ls_date")
     thr_c = []
     for n in walk_no_nested(pd):
